@@ -1,6 +1,7 @@
 """C11: re-configuring a live context is equivalent to creating a new one."""
 import obl_assembly as A
 import obl_context
+import obl_phonetic
 
 
 def run(c):
@@ -10,6 +11,8 @@ def run(c):
     ct = A.conv_table_for([])
     A.obl_reload(c, ct, thorough=(c.tier == "thorough"), budget_s=1200)
     obl_context.obl_context(c, thorough=(c.tier == "thorough"), budget_s=600)
+    # the refresh (update_engine) only re-reads the auto-correct list: everything else the constructor loads must not depend on the options
+    obl_phonetic.obl_userfiles(c, budget_s=600)
     c.assume("context layer: a method object made by the constructor for a configuration, or told to refresh with it (update_engine), stands for "
              "'what a new context would have'; that the phonetic refresh really brings the object up to date is the reload obligation")
     c.outside("determinism of the constructors themselves (file I/O of PhoneticMethod::new / FixedMethod::new / Data::new); a changed data directory")
